@@ -46,7 +46,7 @@ type Replayer struct {
 }
 
 func NewReplayer(name string) *Replayer {
-	wd := filepath.Join(verifDir, "out", "replay-"+name)
+	wd := filepath.Join(outDir, "out", "replay-"+name)
 	os.MkdirAll(wd, 0o755)
 	return &Replayer{bin: filepath.Join(wd, "replay.test"), workDir: wd, tags: "verif", extraOv: map[string]string{}}
 }
